@@ -314,5 +314,63 @@ example : (run exCfg [.new, .connOk, .data exInfo, .sendOk, .run, .eof, .connRef
     [.attempt 1, .wrote 1 (authFrame exCfg [9,8,7,6]), .closed 1, .attempt 2, .sleep, .closed 2, .attempt 3] := by
   decide +kernel
 
+
+/-! ### the resolved addresses are walked round-robin: none is ever given up
+
+`comes_back` above takes `accept` as an event; with a host that resolves to several addresses the environment can only
+accept an attempt that is pointed at a reachable address.  The two theorems below close that gap for the model: in ANY
+connecting state, `j` consecutive refusals leave the client attempting address `(i + j) mod naddr` (a sleep at every
+wrap-around), so within any `naddr` consecutive refused attempts EVERY address has been the target of an attempt — a
+broker reachable through one address only is reached.  (The correspondence run drives the real `Client` through the
+fail-over scenario with 2 and 3 addresses; the monitor `address-given-up` states the same on the implementation.) -/
+
+def refusals (cfg : Cfg) (s : State) (j : Nat) : State :=
+  (List.replicate j Ev.connRefused).foldl (fun s e => (step cfg s e).1) s
+
+theorem refused_walks_addresses (cfg : Cfg) (j : Nat) : ∀ (s : State) (i : Nat) (who : Who),
+    s.pc = .connecting i who → i < cfg.naddr →
+    (refusals cfg s j).pc = .connecting ((i + j) % cfg.naddr) who := by
+  induction j with
+  | zero =>
+    intro s i who hpc hi
+    simp only [refusals, List.replicate, List.foldl_nil, Nat.add_zero]
+    rw [Nat.mod_eq_of_lt hi]; exact hpc
+  | succ j ih =>
+    intro s i who hpc hi
+    have hstep : ∃ i', (step cfg s .connRefused).1.pc = .connecting i' who ∧ i' < cfg.naddr ∧
+        i' % cfg.naddr = (i + 1) % cfg.naddr := by
+      by_cases h1 : i + 1 < cfg.naddr
+      · refine ⟨i + 1, ?_, h1, rfl⟩
+        simp [step, hpc, h1, newSocket]
+      · refine ⟨0, ?_, by omega, ?_⟩
+        · by_cases hc : s.connected = true <;>
+            simp [step, hpc, h1, hc, retry, startConnect, newSocket]
+        · have : i + 1 = cfg.naddr := by omega
+          rw [this, Nat.mod_self, Nat.zero_mod]
+    obtain ⟨i', hpc', hi', hmod⟩ := hstep
+    have := ih (step cfg s .connRefused).1 i' who hpc' hi'
+    simp only [refusals, List.replicate_succ, List.foldl_cons] at this ⊢
+    rw [this]
+    congr 1
+    rw [Nat.add_mod, hmod, ← Nat.add_mod]
+    congr 1
+    omega
+
+/-- within `naddr` consecutive refused attempts every resolved address is attempted -/
+theorem every_address_is_tried (cfg : Cfg) (s : State) (i : Nat) (who : Who) (hpc : s.pc = .connecting i who)
+    (hi : i < cfg.naddr) (a : Nat) (ha : a < cfg.naddr) :
+    ∃ j, j < cfg.naddr ∧ (refusals cfg s j).pc = .connecting a who := by
+  refine ⟨(a + cfg.naddr - i) % cfg.naddr, Nat.mod_lt _ (by omega), ?_⟩
+  rw [refused_walks_addresses cfg _ s i who hpc hi]
+  congr 1
+  rw [Nat.add_mod_mod]
+  have : i + (a + cfg.naddr - i) = a + cfg.naddr := by omega
+  rw [this, Nat.add_mod_right, Nat.mod_eq_of_lt ha]
+
+/-! non-vacuity: three addresses, connected through the third, then refused four times: 0 → 1 → 2 → 0 → 1 -/
+example : (refusals { ident := [1], secret := [2], H := id, naddr := 3 }
+    (run { ident := [1], secret := [2], H := id, naddr := 3 } [.new]).1 4).pc = .connecting 1 .init := by
+  decide +kernel
+
 end Client
 end Hpfeeds.C13
